@@ -45,6 +45,15 @@ func c1ClassifyRegion(src string) string {
 			if c1EmptyBody(x.Body) {
 				set("loop-empty-body")
 			}
+			if n := len(x.Body.List); n > 0 {
+				if as, ok := x.Body.List[n-1].(*ast.AssignStmt); ok && len(as.Lhs) == 1 && len(as.Rhs) == 1 {
+					if id, ok := as.Lhs[0].(*ast.Ident); ok && id.Name == "_" {
+						if _, ok := c1Unparen(as.Rhs[0]).(*ast.BinaryExpr); ok {
+							set("range-blank-last")
+						}
+					}
+				}
+			}
 			var names []string
 			if x.Tok == token.DEFINE {
 				for _, e := range []ast.Expr{x.Key, x.Value} {
@@ -59,7 +68,8 @@ func c1ClassifyRegion(src string) string {
 				set("return-builtin")
 			}
 		case *ast.ParenExpr:
-			if _, ok := x.X.(*ast.BasicLit); ok {
+			switch x.X.(type) {
+			case *ast.BasicLit, *ast.Ident:
 				set("paren-literal")
 			}
 		case *ast.BinaryExpr:
@@ -76,20 +86,33 @@ func c1ClassifyRegion(src string) string {
 			}
 		case *ast.FuncDecl:
 			c1ClassifyReturns(x.Type, x.Body, set)
-		case *ast.FuncLit:
-			c1ClassifyReturns(x.Type, x.Body, set)
-			ast.Inspect(x.Body, func(m ast.Node) bool {
-				if as, ok := m.(*ast.AssignStmt); ok && as.Tok == token.ASSIGN && len(as.Lhs) == 1 && len(as.Rhs) == 1 {
-					if _, ok := as.Lhs[0].(*ast.Ident); ok {
-						if cl, ok := c1Unparen(as.Rhs[0]).(*ast.CompositeLit); ok {
-							if _, ok := cl.Type.(*ast.Ident); ok {
-								set("closure-struct-lit")
+			if x.Body != nil {
+				// variables assigned a struct literal somewhere in the function and mentioned in a function literal
+				assigned := map[string]bool{}
+				ast.Inspect(x.Body, func(m ast.Node) bool {
+					if as, ok := m.(*ast.AssignStmt); ok && as.Tok == token.ASSIGN && len(as.Lhs) == 1 && len(as.Rhs) == 1 {
+						if id, ok := as.Lhs[0].(*ast.Ident); ok {
+							if cl, ok := c1Unparen(as.Rhs[0]).(*ast.CompositeLit); ok {
+								if _, ok := cl.Type.(*ast.Ident); ok {
+									assigned[id.Name] = true
+								}
 							}
 						}
 					}
+					return true
+				})
+				if len(assigned) > 0 {
+					var names []string
+					for n := range assigned {
+						names = append(names, n)
+					}
+					if c1FuncLitMentions(x.Body, names) {
+						set("closure-struct-lit")
+					}
 				}
-				return true
-			})
+			}
+		case *ast.FuncLit:
+			c1ClassifyReturns(x.Type, x.Body, set)
 		case *ast.SwitchStmt:
 			if x.Init != nil && x.Tag != nil {
 				switch c1Unparen(x.Tag).(type) {
@@ -111,6 +134,11 @@ func c1ClassifyRegion(src string) string {
 				}
 			}
 		case *ast.AssignStmt:
+			if len(x.Lhs) == 2 && len(x.Rhs) == 1 {
+				if _, ok := c1Unparen(x.Rhs[0]).(*ast.IndexExpr); ok {
+					set("map-ok-miss")
+				}
+			}
 			if x.Tok == token.ASSIGN && len(x.Lhs) > 1 && len(x.Rhs) > 1 {
 				for _, r := range x.Rhs {
 					switch c1Unparen(r).(type) {
